@@ -31,12 +31,14 @@ static size_t g_urandom_script_pos = 0;
 static bool g_urandom_scripted = false;
 static bool g_urandom_fd0 = false; // /dev/urandom lives at descriptor 0 in this process
 static bool g_urandom_fd0_next = false;
+static int g_urandom_open_failures = 0; // the next opens of /dev/urandom fail with EMFILE (descriptor table full)
 
 struct FakeDir {
   std::shared_ptr<Inode> ino;
   std::vector<std::string> names;
   size_t pos = 0;
   struct dirent ent;
+  int owned_fd = -1; // fdopendir(): the directory stream owns this descriptor and closes it in closedir()
 };
 static std::set<FakeDir*> g_dirs;
 
@@ -315,6 +317,7 @@ void set_urandom(int mode, uint64_t seed) {
 uint64_t urandom_consumed() { return g_urandom_pos; }
 void set_stdio_buffering(size_t mode) { g_world.stdio_buffering = mode; }
 void urandom_open_returns_fd0(bool enable) { g_urandom_fd0_next = enable; }
+void urandom_open_fails(int times) { g_urandom_open_failures = times; }
 void set_urandom_script(const std::vector<int>& script) {
   g_urandom_script = script;
   g_urandom_script_pos = 0;
@@ -353,6 +356,29 @@ static ssize_t do_read(OpenFile& of, void* buf, size_t n, off_t* explicit_off, b
   }
   size_t pos = explicit_off ? (size_t)*explicit_off : of.pos;
   size_t avail = pos < ino.data.size() ? ino.data.size() - pos : 0;
+
+  if (ino.intr_state < 2 && pos >= ino.intr_at_offset && n > 0 && !explicit_off) {
+    if (ino.intr_state == 0) {
+      ino.intr_state = 1;
+      if (ino.intr_piece && avail) {
+        size_t k = std::min({n, avail, ino.intr_piece});
+        memcpy(buf, ino.data.data() + pos, k);
+        of.pos += k;
+        of.bytes_delivered += k;
+        c.bytes_read += k;
+        if (k < std::min(n, avail)) c.short_reads++;
+        vsim::ev("read.before_signal", k, n);
+        return k;
+      }
+    }
+    ino.intr_state = 2;
+    VS_FAULT("EINTR@read(transient)");
+    c.errors++;
+    c.last_errno = EINTR;
+    vsim::ev("read.EINTR.once", n);
+    errno = EINTR;
+    return -1;
+  }
 
   if (!ino.read_script.empty() && n > 0) {
     int act = of.script_pos < ino.read_script.size() ? ino.read_script[of.script_pos] : 0;
@@ -624,8 +650,14 @@ static int cookie_seek(void* cookie, off64_t* offset, int whence) {
   int64_t base = 0;
   if (whence == SEEK_SET) base = 0;
   else if (whence == SEEK_CUR) base = of->pos;
-  else if (whence == SEEK_END) base = of->ino->data.size();
-  else {
+  else if (whence == SEEK_END) {
+    base = of->ino->sizeless ? 0 : of->ino->data.size();
+    if (!of->ino->appended_after_size_query.empty()) {
+      of->ino->data += of->ino->appended_after_size_query;
+      of->ino->appended_after_size_query.clear();
+      VS_FAULT("file_grows_after_size_query");
+    }
+  } else {
     errno = EINVAL;
     return -1;
   }
@@ -645,6 +677,7 @@ static int cookie_close(void* cookie) {
   Cookie* ck = (Cookie*)cookie;
   OpenFile* of = fd_entry(ck->fd);
   if (of) {
+    if (!of->is_open) g_world.calls.double_close++;
     of->is_open = false;
     of->close_calls++;
   }
@@ -714,7 +747,15 @@ ssize_t __wrap_read(int fd, void* buf, size_t n) {
   }
   OpenFile* of = live_fd(fd);
   if (!of) return -1;
-  return do_read(*of, buf, n, nullptr, false);
+  ssize_t r = do_read(*of, buf, n, nullptr, false);
+  if (r > 0 && g_world.after_read_hook) {
+    // the bytes are in the caller's buffer and the caller has not looked at them yet: another thread of the
+    // program may run here
+    int e = errno;
+    g_world.after_read_hook();
+    errno = e;
+  }
+  return r;
 }
 
 ssize_t __wrap_pread(int fd, void* buf, size_t n, off_t off) {
@@ -758,6 +799,11 @@ int __wrap_open(const char* path, int flags, ...) {
   }
   if (path && !strcmp(path, "/dev/urandom")) {
     // opened once per process by a function-local static of the code under test: not an event of a run
+    if (g_urandom_open_failures > 0) {
+      g_urandom_open_failures--;
+      errno = EMFILE;
+      return -1;
+    }
     if (g_urandom_fd0_next) {
       g_urandom_fd0_next = false;
       g_urandom_fd0 = true;
@@ -801,6 +847,11 @@ int __wrap_open(const char* path, int flags, ...) {
     errno = EISDIR;
     return -1;
   }
+  if (n->kind != Kind::DIR && (flags & O_DIRECTORY)) {
+    w.calls.natural_errors++;
+    errno = ENOTDIR;
+    return -1;
+  }
   if ((flags & O_TRUNC) && n->kind == Kind::REG && (flags & O_ACCMODE) != O_RDONLY) n->data.clear();
   int fd = alloc_fd(n, flags, p);
   vsim::ev("open", fd ? fd - FD_BASE : 999999, flags);
@@ -808,6 +859,24 @@ int __wrap_open(const char* path, int flags, ...) {
 }
 
 FILE* __real_fopen(const char*, const char*);
+
+// fdopen() of a simulated descriptor: a stdio stream over the same open file (closing the stream closes the
+// descriptor, as with the real thing)
+FILE* __real_fdopen(int, const char*);
+FILE* __wrap_fdopen(int fd, const char* mode) {
+  if (!is_virtual(fd)) return __real_fdopen(fd, mode);
+  vsim::Quiet quiet;
+  OpenFile* of = live_fd(fd);
+  if (!of) return nullptr;
+  Cookie* ck = new Cookie{fd, of->ino->kind == Kind::REG};
+  cookie_io_functions_t io = {cookie_read, cookie_write, cookie_seek, cookie_close};
+  FILE* f = fopencookie(ck, mode, io);
+  if (!f) vsim::harness_bug("fopencookie failed");
+  if (g_world.stdio_buffering == 1) setvbuf(f, nullptr, _IONBF, 0);
+  else if (g_world.stdio_buffering > 1) setvbuf(f, nullptr, _IOFBF, g_world.stdio_buffering);
+  vsim::ev("fdopen");
+  return f;
+}
 
 // fopen() of a path under /sim/ yields a stdio stream over the simulated file (same fault plan as
 // descriptors); this is how Image(filename) / Image::save(filename) reach the simulated disk.
@@ -892,7 +961,7 @@ static void fill_stat(const Inode& n, struct stat* st) {
     case Kind::URANDOM: st->st_mode = S_IFCHR | 0666; break;
     case Kind::SYMLINK: st->st_mode = S_IFLNK | 0777; break;
   }
-  st->st_size = (n.kind == Kind::REG) ? n.data.size() : 0;
+  st->st_size = (n.kind == Kind::REG && !n.sizeless) ? n.data.size() : 0;
   st->st_nlink = 1;
   st->st_blksize = 4096;
 }
@@ -977,6 +1046,8 @@ int __wrap_poll(struct pollfd* pfds, nfds_t n, int timeout) {
   return ready;
 }
 
+static FakeDir* new_fake_dir(std::shared_ptr<Inode> n);
+
 DIR* __wrap_opendir(const char* path) {
   if (!is_sim_path(path)) return __real_opendir(path);
   if (g_world.between_dir_calls) g_world.between_dir_calls();
@@ -991,6 +1062,28 @@ DIR* __wrap_opendir(const char* path) {
     errno = ENOTDIR;
     return nullptr;
   }
+  FakeDir* d = new_fake_dir(n);
+  vsim::ev("opendir", d->names.size());
+  return (DIR*)d;
+}
+
+DIR* __real_fdopendir(int);
+DIR* __wrap_fdopendir(int fd) {
+  if (!is_virtual(fd)) return __real_fdopendir(fd);
+  OpenFile* of = live_fd(fd);
+  if (!of) return nullptr;
+  if (of->ino->kind != Kind::DIR) {
+    g_world.calls.natural_errors++;
+    errno = ENOTDIR;
+    return nullptr;
+  }
+  FakeDir* d = new_fake_dir(of->ino);
+  d->owned_fd = fd;
+  vsim::ev("fdopendir", d->names.size());
+  return (DIR*)d;
+}
+
+static FakeDir* new_fake_dir(std::shared_ptr<Inode> n) {
   FakeDir* d = new FakeDir();
   d->ino = n;
   d->names.push_back(".");
@@ -1004,8 +1097,7 @@ DIR* __wrap_opendir(const char* path) {
     }
   }
   g_dirs.insert(d);
-  vsim::ev("opendir", d->names.size());
-  return (DIR*)d;
+  return d;
 }
 
 struct dirent* __wrap_readdir(DIR* dir) {
@@ -1033,7 +1125,9 @@ int __wrap_closedir(DIR* dir) {
   FakeDir* d = (FakeDir*)dir;
   if (!g_dirs.count(d)) return __real_closedir(dir);
   g_dirs.erase(d);
+  int owned = d->owned_fd;
   delete d;
+  if (owned >= 0) return __wrap_close(owned); // closedir() closes the descriptor handed to fdopendir()
   return 0;
 }
 
